@@ -287,6 +287,7 @@ func zzPathResponse() {
 		same = zzsymEqBytes(p.cookie[:], cookie[:])
 	}
 
+	_ = zzNow() // arbitrary current instant
 	got := m.HandleResponse(zzAddrOf(from), cookie)
 
 	inTime := zzLexLess(zzClockSec, zzClockNs, es[from], en[from])
@@ -376,7 +377,9 @@ func zzChallengeStart() {
 	}
 	_ = es
 	_ = en
-	// answer with the right cookie at an arbitrary later instant
+	// answer with the right cookie at an arbitrary later instant (the harness lets time pass itself, so the
+	// verdict does not depend on HandleResponse reading the clock)
+	_ = zzNow()
 	got := m.HandleResponse(cand, cookie)
 	rs, rn := zzClockSec, zzClockNs
 	inTime := zzLexLess(rs, rn, ss+1, sn)
